@@ -114,6 +114,14 @@ def gen_prov(D, max_tasks=8):
             if clause == 'publish-on-error' and not D.bool(0.4):
                 pub = {}
             t[clause] = pub
+    # a published null is a value: it shadows the input default / workflow
+    # variable of the same name for everything downstream
+    for v, fb in sorted((prog.get('fallback') or {}).items()):
+        holders = [nm for nm in prog['order']
+                   if v in (prog['tasks'][nm].get('publish') or {})]
+        if holders and D.bool(0.5):
+            prog['tasks'][D.choice(holders)]['publish'][v] = None
+            prog['null_publish'] = True
     if not prog.get('loopside'):
         gen_tpublish(D, prog)
     if lang == 'yaql':
@@ -275,6 +283,16 @@ def _fallback(prog, leaf):
     return {fb} if fb is not None else {None, 'none'}
 
 
+def _has(pub, leaf):
+    """Does the published dict define the leaf (a null value counts)?"""
+    cur = pub
+    for k in leaf.split('.'):
+        if not isinstance(cur, dict) or k not in cur:
+            return False
+        cur = cur[k]
+    return True
+
+
 def _leaf(pub, leaf):
     cur = pub
     for k in leaf.split('.'):
@@ -345,8 +363,7 @@ def check_prov(case, stats=None):
         return out
 
     def expected(anc, leaf):
-        pubs = [a for a in anc if _leaf(tasks[a]['published'] or {}, leaf)
-                is not None]
+        pubs = [a for a in anc if _has(tasks[a]['published'] or {}, leaf)]
         maximal = [p for p in pubs
                    if not any(p in ancestors(q) for q in pubs if q != p)]
         return pubs, maximal
